@@ -67,7 +67,7 @@ func genC15(t *rapid.T) c15Case {
 		c.Cfg.Min = rapid.IntRange(1, 4).Draw(t, "min")
 		c.Cfg.Initial = rapid.IntRange(c.Cfg.Min, c.Cfg.Max).Draw(t, "initial")
 		c.Cfg.RTTTol = rapid.SampledFrom([]float64{2, 1, 1.5}).Draw(t, "tol")
-		c.Cfg.ProbeInterval = rapid.OneOf(rapid.IntRange(1, 200), rapid.IntRange(1, 200), rapid.Just(-1)).Draw(t, "pi")
+		c.Cfg.ProbeInterval = rapid.OneOf(rapid.IntRange(1, 200), rapid.IntRange(1, 200), rapid.Just(-1), rapid.Just(0)).Draw(t, "pi") // 0 = the library's default interval (its value is not assumed by the oracle, only used to size the run)
 		c.Cfg.Queue = "fixed:1"
 		pi := c.Cfg.ProbeInterval
 		if pi == 0 {
@@ -82,7 +82,11 @@ func genC15(t *rapid.T) c15Case {
 	nseg := rapid.IntRange(1, 6).Draw(t, "nseg")
 	for i := 0; i < nseg; i++ {
 		s := c15Seg{
-			RTT:  rapid.OneOf(rapid.Int64Range(1, 100), rapid.Int64Range(1, 10_000_000), rapid.SampledFrom([]int64{0, 1})).Draw(t, "rtt"),
+			RTT: rapid.OneOf(rapid.Int64Range(1, 100), rapid.Int64Range(1, 10_000_000), rapid.SampledFrom([]int64{0, 1}),
+				// whole seconds and more, a few nanoseconds apart from one segment to the next (relative differences of 1e-9 and less)
+				rapid.Map(rapid.Int64Range(0, 4), func(i int64) int64 { return 4_000_000_000 - i }),
+				rapid.Map(rapid.Int64Range(0, 4), func(i int64) int64 { return 1_000_000_004 - i }),
+				rapid.Map(rapid.Int64Range(0, 4), func(i int64) int64 { return 3_600_000_000_000 - i })).Draw(t, "rtt"),
 			Rel:  rapid.SampledFrom([]string{"eq", "dbl", "half", ""}).Draw(t, "rel"),
 			Drop: rapid.IntRange(0, 9).Draw(t, "drop") == 0,
 		}
@@ -108,9 +112,11 @@ func runC15(_ *testing.T, c c15Case) kit.Outcome {
 		mult = 30
 	}
 	interval := c.Cfg.ProbeInterval
-	if interval == 0 {
-		interval = 1000
-	}
+	// interval == 0: the library's default. Its value is not assumed: the countdown to a reset is interval + rand(interval),
+	// so the first reset comes no earlier than one interval after the start, and every later gap must stay within
+	// twice that first observed distance.
+	defaultInterval := interval == 0
+	firstReset := 0
 	prevBase, _ := b.noLoad()
 	if prevBase != 0 {
 		return kit.Viol(algo+":initial-baseline", "baseline %d before any sample", prevBase)
@@ -134,6 +140,18 @@ func runC15(_ *testing.T, c c15Case) kit.Outcome {
 			base, _ := b.noLoad()
 			// Gradient shows every reset: the baseline reads unset right after the probing sample. Resets must recur
 			// within twice the probe interval, whatever the samples in between were.
+			if algo == "gradient" && defaultInterval {
+				if base == 0 {
+					if firstReset == 0 && prevBase != 0 && rtt != 0 {
+						firstReset = n // a set baseline that reads unset after a non-zero sample: a reset, no earlier than one interval after the start
+					}
+					sinceReset = 0
+				} else if sinceReset++; firstReset > 0 && sinceReset > 2*firstReset {
+					return kit.Viol("gradient:reset-overdue", "sample %d: %d samples since the baseline was last reset; with the default probe interval the first reset came after %d samples (at least one interval), so resets recur within %d", n, sinceReset, firstReset, 2*firstReset)
+				} else if firstReset > 0 && sinceReset > firstReset {
+					longRun = true
+				}
+			}
 			if algo == "gradient" && interval > 0 {
 				if base == 0 {
 					sinceReset = 0
